@@ -78,6 +78,18 @@ class Interp:
         assert len(self.bufs) == 1
         return ("ok", "".join(self.bufs[0]))
 
+    def render_def(self, name):
+        """get_def(name).render(): the def alone, with the template's `self` namespace set up"""
+        d = {x["name"]: x for x in self.prog["defs"]}[name]
+        try:
+            r = self.call_def(d, self.main_env(), None, None)
+            self.w(r)
+        except (ModelBoom, ModelBoomBase) as e:
+            assert len(self.bufs) == 1, self.bufs
+            return ("raised", e, "".join(self.bufs[0]))
+        assert len(self.bufs) == 1
+        return ("ok", "".join(self.bufs[0]))
+
     def main_env(self):
         return {"tmpl": "main", "defs": {d["name"]: d for d in self.prog["defs"]}, "caller": None, "loops": []}
 
